@@ -18,7 +18,9 @@ RULE = (
     'outside the data; scalar window widths from below the grid spacing to twice the range, or explicit windows '
     '(including empty and one-point windows); peak/background given as name, instance, list or tuple of either; '
     'default and randomised FitRequirements / neighbour-separation factors; a small stream of rejected inputs '
-    '(unsorted estimates, empty model lists); remove_peaks additionally on constructed FitResult lists (1..6 results, first '
+    '(unsorted estimates, empty model lists); piecewise and wide logarithmic grids with peaks whose FWHM lies between the '
+    'window-average and the local spacing; windows whose bounds are exactly grid points (explicit and clipped automatic '
+    'ones); remove_peaks additionally on constructed FitResult lists (1..6 results, first '
     'success at every position, mixes of successful / failed / too-narrow / rejected results, overlapping and empty windows, '
     'shuffled orders) passed as list, tuple, generator, iterator, reversed and a one-shot iterable. A case is non-trivial when at least one window reaches the optimiser '
     'or the point-count guard; distinct = distinct generator parameters.'
@@ -91,11 +93,11 @@ def unbits(h: str) -> float:
 
 def gen_case(rng, idx: int) -> dict:
     """All parameters of one case; the data are regenerated deterministically from them (`build`)."""
-    grid = rng.choice(['uniform'] * 4 + ['jitter', 'log', 'gapped'])
+    grid = rng.choice(['uniform'] * 4 + ['jitter', 'log', 'gapped', 'piecewise', 'log'])
     n = rng.choice([12, 20, 35, 60, 60, 101, 101, 160, 160, 250, 400])
     x0 = rng.choice([0.0, 0.5, 1.0, -3.0, 10.0])
     span = rng.choice([1.0, 4.0, 10.0, 25.0])
-    if grid == 'log' and x0 <= 0:
+    if grid in ('log', 'logwide') and x0 <= 0:
         x0 = 0.5
     npk = rng.randint(1, 6)
     peaks = []
@@ -159,6 +161,13 @@ def grid_of(case):
         return x
     if case['grid'] == 'log':
         return np.geomspace(x0, x0 + span, n)
+    if case['grid'] == 'logwide':            # logarithmic spacing over a factor `ratio` (d-spacing / TOF like)
+        return np.geomspace(x0, x0 * case.get('ratio', 30.0), n)
+    if case['grid'] == 'piecewise':          # fine spacing on the first part, four times coarser on the rest
+        nf = (2 * n) // 3
+        h = span / (nf + 4 * (n - 1 - nf))
+        steps = np.concatenate([np.full(nf, h), np.full(n - 1 - nf, 4 * h)])
+        return x0 + np.concatenate([[0.0], np.cumsum(steps)])
     # gapped: dense stretches separated by a wide gap with a lone point in the middle
     x = np.linspace(x0, x0 + span, n)
     k, g = gap_geometry(n)
@@ -211,7 +220,12 @@ def build(case):
     if case['wmode'] == 'scalar':
         win = sc.scalar(case['wfrac'] * case['span'], unit='angstrom')
     else:
-        w = [[case['x0'] + a * case['span'], case['x0'] + b * case['span']] for a, b in case['expl']]
+        if case.get('expl_idx'):       # bounds that are exactly grid points
+            w = [[float(x[min(max(i, 0), len(x) - 1)]), float(x[min(max(j, 0), len(x) - 1)])] for i, j in case['expl_idx']]
+        elif case.get('expl_abs'):
+            w = [[float(a), float(b)] for a, b in case['expl_abs']]
+        else:
+            w = [[case['x0'] + a * case['span'], case['x0'] + b * case['span']] for a, b in case['expl']]
         win = sc.array(dims=['x', 'range'], values=np.array(w).reshape(len(w), 2), unit='angstrom')
 
     def inst_peak(kind, j):
@@ -496,7 +510,7 @@ def near_tie(rec, fr, impl_res):
 def correspond(ctx):
     variant = ctx.driver(['c17.variant'])[0]
     ctx.note(f'source shape read by the translator: clipFirst,clampIdx = {variant}')
-    cases = corpus_cases() + rejected_cases() + general_cases(ctx)
+    cases = corpus_cases() + rejected_cases() + general_cases(ctx) + _CASES[ctx.seed][1]   # general + targeted (runs are shared with the oracle)
     runs = []
     lines = []
     for case in cases:
@@ -842,7 +856,9 @@ def oracle_case(ctx, case):
                 'p-value': not (rep['p_value'] < fr.min_p_value),
                 'near-edge': not (loc - xs[0] < 2 * step or xs[-1] - loc < 2 * step),
                 'amplitude': not (amp < 0),
-                'too-wide': not (fwhm > fr.max_peak_width_factor * (xs[-1] - xs[0])),
+                # FitRequirements: FWHM relative to the *window width*; FWHM relative to the coordinate spacing
+                # *around the peak centre* (local, not a window average)
+                'too-wide': not (fwhm > fr.max_peak_width_factor * (hi - lo)),
                 'too-narrow': not (fwhm < fr.min_peak_width_factor * spacing_around(xs, loc)),
                 'background-better': not (bkg and bkg[0]['stats']['aic'] < rep['aic']),
             }
@@ -914,7 +930,7 @@ def targeted_cases(rng, k):
     out = []
     for i in range(k):
         c = gen_case(rng, 100000 + i)
-        t = i % 4
+        t = i % 7
         if t == 0:      # windows below / around the parameter count
             c['wmode'] = 'explicit'
             c['expl'] = [[u - h, u + h] for u, h in ((rng.uniform(0, 1), rng.choice([0.0, 0.6, 1.6, 2.6, 3.6]) / c['n']) for _ in c['peaks'])]
@@ -941,6 +957,69 @@ def targeted_cases(rng, k):
             c['peak_spec'] = {'form': 'name', 'kinds': ['gaussian']}
             c['bg_spec'] = {'form': 'name', 'degs': [1]}
             c['req'] = None
+        elif t == 4:    # non-uniform grid: FWHM between min_factor * (window-average spacing) and min_factor * (local spacing)
+            fmin = 4.0
+            c['n'] = n = rng.choice([120, 160, 200])
+            c['wmode'] = 'explicit'
+            c['noise'] = 30.0
+            c['req'] = {'min_p_value': 0.0, 'max_peak_width_factor': 3.0, 'min_peak_width_factor': fmin}
+            c['peak_spec'] = {'form': 'name', 'kinds': ['gaussian']}
+            c['bg_spec'] = {'form': 'name', 'degs': [1]}
+            # the peak guess looks at the middle half of the window *by index*: keep the peak there
+            if rng.random() < 0.5:
+                frac = rng.uniform(0.8, 0.93)
+                c['grid'] = 'logwide'
+                c['n'] = n = 200
+                c['x0'], c['ratio'] = 0.5, 60.0
+                delta = math.log(c['ratio']) / (n - 1)
+                loc = c['x0'] * rng.uniform(12.6, 22.0)
+                local = loc * delta
+                c['expl_abs'] = [[loc / 12.0, loc * 2.5]]
+                c['span'] = c['x0'] * c['ratio'] - c['x0']
+            else:
+                frac = rng.uniform(0.76, 0.93)
+                c['grid'] = 'piecewise'
+                c['x0'], c['span'] = rng.choice([0.0, 1.0]), rng.choice([4.0, 10.0])
+                nf = (2 * n) // 3
+                h = c['span'] / (nf + 4 * (n - 1 - nf))
+                junction = c['x0'] + nf * h
+                local = 4 * h
+                loc = junction + local * (6 + rng.uniform(-0.3, 0.3))
+                c['expl_abs'] = [[junction - h * 13.5, junction + local * 17.5]]
+            fwhm = frac * fmin * local
+            pk = dict(c['peaks'][0], kind='gaussian', loc=loc, scale=fwhm / GFWHM, amp=rng.uniform(60, 200))
+            c['peaks'] = [pk]
+            c['bg'] = [rng.uniform(3, 8), 0.0]
+            c['est'] = [loc]
+            c['expl'] = []
+        elif t == 5:    # user-supplied windows whose bounds are exactly grid points (either or both)
+            c['grid'] = 'uniform'
+            c['n'] = n = rng.choice([101, 160])
+            c['wmode'] = 'explicit'
+            c['noise'] = 30.0
+            c['req'] = None
+            pk = dict(c['peaks'][0], kind=rng.choice(PEAK_NAMES), loc=c['x0'] + c['span'] * rng.uniform(0.35, 0.65),
+                      scale=c['span'] * rng.uniform(0.015, 0.03), amp=rng.uniform(40, 150))
+            c['peaks'] = [pk]
+            c['est'] = [pk['loc']]
+            ci = round((pk['loc'] - c['x0']) / c['span'] * (n - 1))
+            half = rng.randint(14, 22)
+            c['expl_idx'] = [[ci - half, ci + half]]
+            c['peak_spec'] = {'form': 'name', 'kinds': [pk['kind']]}
+            c['bg_spec'] = {'form': 'name', 'degs': [1]}
+        elif t == 6:    # automatic window clipped at the upper end of the data: its upper bound IS the last grid point
+            c['grid'] = 'uniform'
+            c['n'] = n = rng.choice([101, 160])
+            c['wmode'] = 'scalar'
+            c['noise'] = 30.0
+            c['req'] = None
+            pk = dict(c['peaks'][0], kind='gaussian', loc=c['x0'] + c['span'] * rng.uniform(0.88, 0.92),
+                      scale=c['span'] * rng.uniform(0.012, 0.02), amp=rng.uniform(40, 150))
+            c['peaks'] = [pk]
+            c['est'] = [pk['loc']]
+            c['wfrac'] = rng.uniform(0.3, 0.4)
+            c['peak_spec'] = {'form': 'name', 'kinds': ['gaussian']}
+            c['bg_spec'] = {'form': 'name', 'degs': [1]}
         else:           # tiny data sets
             c['n'] = rng.choice([12, 12, 20])
         out.append(c)
@@ -994,6 +1073,18 @@ def gen_remove_case(rng, idx):
         for r in res:
             r['assessment'] = 'success'
             r['lo'], r['hi'] = 0.3 + rng.uniform(-0.2, 0.1), 0.6 + rng.uniform(-0.1, 0.3)
+    for r in res:               # window bounds that are exactly grid points: lower, upper, or both
+        u = rng.random()
+        if mode == 3 or u < 0.45:
+            i = rng.randrange(0, n - 1)
+            j = rng.randrange(i, n)
+            which = rng.choice(['both', 'lo', 'hi']) if mode != 3 else 'both'
+            if which in ('both', 'lo'):
+                r['lo_idx'] = i
+            if which in ('both', 'hi'):
+                r['hi_idx'] = j
+            if mode == 3:
+                r['assessment'] = 'success'
     order = list(range(k))
     rng.shuffle(order)
     return {'idx': idx, 'n': n, 'x0': rng.choice([0.0, 1.0, -2.0]), 'span': rng.choice([1.0, 10.0]), 'np_seed': rng.getrandbits(32),
@@ -1017,7 +1108,11 @@ def build_remove(case):
         cls = {'gaussian': M.GaussianModel, 'lorentzian': M.LorentzianModel, 'pseudo_voigt': M.PseudoVoigtModel}[r['kind']]
         peak = cls(prefix='peak_')
         bkg = M.PolynomialModel(degree=1, prefix='bkg_')
-        window = sc.array(dims=['range'], values=[x0 + r['lo'] * span, x0 + r['hi'] * span], unit='angstrom')
+        wlo = float(x[r['lo_idx']]) if 'lo_idx' in r else x0 + r['lo'] * span
+        whi = float(x[r['hi_idx']]) if 'hi_idx' in r else x0 + r['hi'] * span
+        if whi < wlo:
+            wlo, whi = whi, wlo
+        window = sc.array(dims=['range'], values=[wlo, whi], unit='angstrom')
         if r['assessment'] in ('failed', 'window_too_narrow'):
             out.append(FitResult.for_failure(assessment=FitAssessment[r['assessment']], peak=peak, background=bkg, window=window))
             continue
@@ -1164,7 +1259,7 @@ def general_cases(ctx):
         rng = random.Random(ctx.rng.getrandbits(64))
         _CASES[ctx.seed] = (
             [gen_case(rng, i) for i in range(ctx.n(28, 520))],
-            targeted_cases(rng, ctx.n(12, 160)),
+            targeted_cases(rng, ctx.n(14, 175)),
             rng,
         )
     return _CASES[ctx.seed][0]
